@@ -306,6 +306,13 @@ class NodeExecution:
     wait_for_versions: dict[str, int] = field(default_factory=dict)
 
 
+def _is_emit_sentinel(value: Any) -> bool:
+    """True for the ordering-signal sentinel (imported lazily to avoid a cycle)."""
+    from hypergraph.nodes.base import _EMIT_SENTINEL
+
+    return value is _EMIT_SENTINEL
+
+
 @dataclass
 class GraphState:
     """Internal runtime state during graph execution.
@@ -346,7 +353,9 @@ class GraphState:
             except (ValueError, TypeError):
                 # Comparison failed (e.g., numpy arrays), assume changed
                 changed = old_value is not value
-            if changed:
+            # An emit signal is one shared sentinel object, so "same value" never
+            # means "not produced again": every emission is a fresh production.
+            if changed or _is_emit_sentinel(value):
                 self.versions[name] = self.versions.get(name, 0) + 1
 
     def get_version(self, name: str) -> int:
